@@ -182,7 +182,7 @@ fn advance(procs: &mut [Proc], i: usize, trace: &mut Trace, go: bool) {
         }
     }
     loop {
-        match p.rx.recv_timeout(Duration::from_secs(120)) {
+        match p.rx.recv_timeout(Duration::from_secs(900)) {
             Ok(Some(l)) => {
                 if let Some(label) = l.strip_prefix("STEP ") {
                     p.st = St::Waiting(label.to_string());
@@ -204,7 +204,7 @@ fn advance(procs: &mut [Proc], i: usize, trace: &mut Trace, go: bool) {
                 let _ = p.child.wait();
                 vhcore::machinery_failure(&format!("child {i} exited unexpectedly"));
             }
-            Err(_) => vhcore::machinery_failure(&format!("child {i} made no progress for 120 s")),
+            Err(_) => vhcore::machinery_failure(&format!("child {i} made no progress for 900 s")),
         }
     }
 }
@@ -432,20 +432,26 @@ struct Scenario {
 }
 
 fn scenarios(thorough: bool) -> Vec<Scenario> {
-    let mut v = vec![
-        Scenario { name: "owner|checker", programs: vec!["owner", "checker"], crash: vec![true, false], preempt: 99, fault: 1 },
-        Scenario { name: "owner|cleaner", programs: vec!["owner", "cleaner"], crash: vec![true, false], preempt: 99, fault: 1 },
-        Scenario { name: "holder|checker2", programs: vec!["holder", "checker2"], crash: vec![true, false], preempt: if thorough { 99 } else { 3 }, fault: 1 },
-        Scenario { name: "holder|cleaner|checker", programs: vec!["holder", "cleaner", "checker"], crash: vec![true, false, false], preempt: if thorough { 3 } else { 2 }, fault: if thorough { 1 } else { 0 } },
-        Scenario { name: "owner|checker|checker", programs: vec!["owner", "checker", "checker"], crash: vec![true, false, false], preempt: if thorough { 3 } else { 2 }, fault: if thorough { 1 } else { 0 } },
-    ];
+    let sc = |name: &'static str, programs: Vec<&'static str>, crash: Vec<bool>, preempt: u32, fault: u32| Scenario { name, programs, crash, preempt, fault };
     if thorough {
-        v.push(Scenario { name: "owner|owner", programs: vec!["owner", "owner"], crash: vec![true, true], preempt: 99, fault: 1 });
-        v.push(Scenario { name: "holder|owner|checker", programs: vec!["holder", "owner", "checker"], crash: vec![false, true, false], preempt: 2, fault: 1 });
+        vec![
+            sc("owner|checker", vec!["owner", "checker"], vec![true, false], 99, 1),
+            sc("owner|cleaner", vec!["owner", "cleaner"], vec![true, false], 99, 1),
+            sc("holder|checker2", vec!["holder", "checker2"], vec![true, false], 4, 1),
+            sc("owner|owner", vec!["owner", "owner"], vec![true, true], 3, 1),
+            sc("holder|cleaner|checker", vec!["holder", "cleaner", "checker"], vec![true, false, false], 2, 1),
+            sc("owner|checker|checker", vec!["owner", "checker", "checker"], vec![true, false, false], 2, 1),
+            sc("holder|owner|checker", vec!["holder", "owner", "checker"], vec![true, false, false], 2, 1),
+        ]
     } else {
-        v.push(Scenario { name: "owner|owner", programs: vec!["owner", "owner"], crash: vec![false, false], preempt: 2, fault: 0 });
+        vec![
+            sc("owner|checker", vec!["owner", "checker"], vec![true, false], 2, 1),
+            sc("owner|cleaner", vec!["owner", "cleaner"], vec![true, false], 2, 0),
+            sc("holder|checker2", vec!["holder", "checker2"], vec![true, false], 1, 1),
+            sc("owner|owner", vec!["owner", "owner"], vec![false, false], 1, 0),
+            sc("holder|cleaner|checker", vec!["holder", "cleaner", "checker"], vec![false, false, false], 1, 0),
+        ]
     }
-    v
 }
 
 fn run(a: &vhcore::Args) -> i32 {
